@@ -84,8 +84,9 @@ def build(sc):
             problems.append({"trx": sc["trx"][i]["name"], "cmd": line, "status": st, "wanted": want})
 
     def setfh(i):
-        hsn, maio, ma = sc["trx"][i]["fh"]
-        cmd(i, "SETFH %d %d %s" % (hsn, maio, " ".join("%d %d" % p for p in ma)))
+        # a hopping assignment may replace an earlier one (same sequence with another MAIO, another HSN, another allocation): the last one counts
+        for hsn, maio, ma in (sc["trx"][i].get("fh_history") or []) + [sc["trx"][i]["fh"]]:
+            cmd(i, "SETFH %d %d %s" % (hsn, maio, " ".join("%d %d" % p for p in ma)))
 
     model_on = [False] * len(objs)
     for i, s in enumerate(sc["trx"]):
@@ -243,6 +244,16 @@ def fixed_scenarios():
             for k, fn in enumerate(fns[::step] + list(FN_EDGES)):
                 ticks.append({"fn": fn, "direct": k % 4 == 3, "bursts": [B(1, tn=k % 8, bseed=k), B(0, tn=(k + 1) % 8, bseed=k + 1)] + ([B(3, tn=(k + 2) % 8)] if k % 3 == 0 else [])})
             out.append(("hopping hsn=%d n=%d" % (hsn, n), {"trx": trx, "ticks": ticks}))
+    # a hopping assignment replaced while hopping: same sequence with another MAIO, another HSN, a shorter allocation - the last one counts
+    for hsn in (0, 9):
+        ma_ms = [(935000 + 200 * i, 890000 + 200 * i) for i in range(4)]
+        for hist in ([(hsn, 0, ma_ms)], [(hsn, 3, ma_ms), (hsn, 2, ma_ms)], [((hsn + 5) % 64, 1, ma_ms)], [(hsn, 0, ma_ms[:2])]):
+            trx = [T("BTS%d" % i, 5700, 890000 + 200 * i, 935000 + 200 * i, idx=i, parent=None if i == 0 else 0, ver=i % 2) for i in range(4)]
+            ms = T("MSH", 6700, None, None, fh=(hsn, 1, ma_ms))
+            ms["fh_history"] = hist
+            trx.append(ms)
+            ticks = [{"fn": fn, "direct": fn % 3 == 0, "bursts": [B(4, tn=fn % 8, bseed=fn)] + [B(fn % 4, tn=(fn + 1) % 8, bseed=fn + 7)]} for fn in list(range(0, 60)) + list(FN_EDGES)]
+            out.append(("SETFH replaced (hsn=%d, earlier %s)" % (hsn, [(h[0], h[1], len(h[2])) for h in hist]), {"trx": trx, "ticks": ticks}))
     # parent / child power propagation
     for mgt in (True, False):
         for con in (True, False):
@@ -290,6 +301,18 @@ def random_scenario(r):
             if r.random() < 0.4:
                 nn = r.choice((1, 2, 3, 4, 5, 8))
                 t["fh"] = (r.randint(0, 63), r.randrange(nn), [(r.choice(POOL), r.choice(POOL)) for _ in range(nn)])
+        if t["fh"] is not None and r.random() < 0.4:
+            hsn_, maio_, ma_ = t["fh"]
+            hist = []
+            for _ in range(r.choice((1, 1, 2))):
+                kind = r.random()
+                if kind < 0.5 and len(ma_) > 1:
+                    hist.append((hsn_, (maio_ + r.randrange(1, len(ma_))) % len(ma_), ma_))      # only the MAIO differs from the final assignment
+                elif kind < 0.75:
+                    hist.append(((hsn_ + r.randrange(1, 64)) % 64, maio_, ma_))
+                else:
+                    hist.append((hsn_, 0, ma_[:1]))
+            t["fh_history"] = hist
         if t["fh"] is not None and r.random() < 0.3:
             t["rx"] = t["tx"] = None        # ready through SETFH only
         if t["fh"] is None and t["idx"] and not t["on"] and r.random() < 0.2:
